@@ -111,6 +111,57 @@ pub fn families() -> Vec<Box<dyn Family>> {
             },
         ),
         family(
+            "never_expiring_far",
+            "edit distances above 8192 in ONE box (two mostly unrelated sequences of 4200..5200 items each, thorough up to 9000; lopsided 8500 vs 300) x {Myers, Patience}: a deadline that is present but never expires must give exactly the result of no deadline, raw and captured",
+            false,
+            1,
+            |cfg| if cfg.tiny { 1 } else { cfg.tier.pick(6, 30) },
+            |idx, cfg, out| {
+                let mut rng = Rng::for_case(cfg.seed, "c07.never_expiring_far", idx);
+                let (a, b) = if cfg.tiny {
+                    gen::asymmetric_replace(&mut rng, 1, 1, 4, 2)
+                } else if idx % 3 == 2 {
+                    let (head, tail) = (rng.below(50), rng.below(50));
+                    gen::asymmetric_replace(&mut rng, head, tail, 8500, 300)
+                } else {
+                    let hi = cfg.tier.pick(5200, 9000);
+                    let (n, m) = (rng.range(4200, hi), rng.range(4200, hi));
+                    let k = rng.range(2, 20);
+                    gen::landmark_pair(&mut rng, n, m, k, 0)
+                };
+                let alg = if idx % 2 == 0 { Algorithm::Myers } else { Algorithm::Patience };
+                out.sample(|| format!("alg={} N={} M={}", alg_name(alg), a.len(), b.len()));
+                out.nontrivial(&(alg_name(alg), a.len(), b.len(), idx));
+                out.count("never_expiring_far_cases");
+                let far = far_deadline();
+                let eq = |o: usize, n: usize| a[o] == b[n];
+                out.evals_add(4);
+                vh::set_clock(vh::Clock::Off);
+                let base = traced(Entry::Dispatch, alg, &a[..], 0..a.len(), &b[..], 0..b.len(), &eq, None, true);
+                let (never, _) = raw_under_clock(0, alg, &a, 0..a.len(), &b, 0..b.len(), &eq, vh::Clock::Fuel(u64::MAX), far);
+                let ctx = || format!("alg={} N={} M={} old={} new={}", alg_name(alg), a.len(), b.len(), fmt_seq(&a), fmt_seq(&b));
+                report_trace(out, "diff without deadline", &ctx, &base);
+                report_trace(out, "diff with a deadline that never expires", &ctx, &never);
+                if let (Ok(x), Ok(y)) = (&base, &never) {
+                    if x.evs != y.evs {
+                        out.violation(
+                            "deadline.never_expiring_differs",
+                            format!("never-expiring deadline: {} callbacks, cost {}; no deadline: {} callbacks, cost {} | {}", y.evs.len(), y.cost(), x.evs.len(), x.cost(), ctx()),
+                        );
+                    }
+                }
+                let c0 = guard(|| similar::capture_diff(alg, &a[..], 0..a.len(), &b[..], 0..b.len()));
+                vh::set_clock(vh::Clock::Fuel(u64::MAX));
+                let c1 = guard(|| capture_diff_deadline(alg, &a[..], 0..a.len(), &b[..], 0..b.len(), Some(far)));
+                vh::set_clock(vh::Clock::Off);
+                if let (Ok(x), Ok(y)) = (&c0, &c1) {
+                    if x != y {
+                        out.violation("deadline.never_expiring_differs", format!("capture_diff_deadline with a never-expiring deadline gives {} ops, capture_diff {} ops | {}", y.len(), x.len(), ctx()));
+                    }
+                }
+            },
+        ),
+        family(
             "prompt",
             "promptness: items whose PartialEq counts comparisons and advances the virtual clock; families {random pairs, distinct items with <= 3 shared anchors (no snakes), one huge dissimilar gap in front of / behind a unique common item, periodic}; sizes up to 300 (quick) / 1200 (thorough); fuel mode: every k (sampled when P > 24) -> comparisons after the first expired check; time mode: T in {0, the time of every check (sampled), random T in 0..=W} -> comparisons after T; bound 6*(N+M)+16",
             false,
